@@ -273,6 +273,45 @@ def concurrent_first_use(rec, rng, n):
     rec.observe("concurrent_injected_yields", inj[0])
 
 
+def wide_rules(rec, rng):
+    """Rules with more than ten variables, two or more of them inside one segment (or host part): every variable keeps
+    its own value through build -> match, and the URL matched is the URL rebuilt."""
+    from werkzeug.exceptions import HTTPException
+    from werkzeug.routing import Map, Rule
+
+    shapes = []
+    for total in (3, 9, 10, 11, 12, 13, 23):
+        for tail in (2, 3, total):
+            if tail > total:
+                continue
+            head = [f"<int:v{i}>" for i in range(total - tail)]
+            sep = rng.choice(["-", ".", "_", "x"])
+            last = sep.join(f"<int:v{i}>" for i in range(total - tail, total))
+            shapes.append((total, "/w/" + "/".join(head + [last])))
+    for total, rs in shapes:
+        for trial in range(3):
+            vals = {f"v{i}": rng.randint(0, 9) * 100 + i for i in range(total)}
+            case = {"part": "wide", "rule": rs, "values": vals}
+            rec.case()
+            rec.nontrivial(("wide", rs, tuple(vals.values())))
+            rec.observe("rules_with_many_variables")
+            m = Map([Rule(rs, endpoint="wide"), Rule("/w/other", endpoint="other")])
+            ad = m.bind("h.com", "/")
+            try:
+                url = ad.build("wide", vals)
+                got = ad.match(url)
+            except HTTPException as e:
+                rec.violation("C04/built-url-does-not-match", f"{rs}: built {vals} but matching gives {type(e).__name__}", case, monitor="law1")
+                return
+            if got != ("wide", vals):
+                bad = {k: (vals[k], got[1].get(k)) for k in vals if got[1].get(k) != vals[k]}
+                rec.violation("C04/values-assigned-to-other-variables", f"{rs}: built {url!r}; matching it gives other values for {bad} (built, matched)", case, monitor="law1")
+                return
+            if ad.build(*got) != url:
+                rec.violation("C04/match-then-build-differs", f"{rs}: {url!r} rebuilt as {ad.build(*got)!r}", case, monitor="law2")
+                return
+
+
 def run(shard, rec, rng):
     from werkzeug.exceptions import HTTPException
     from werkzeug.routing import EndpointPrefix, Map, RequestRedirect, Rule, Subdomain, Submount
@@ -291,6 +330,7 @@ def run(shard, rec, rng):
     })
     cfg = TIERS[shard["_tier"]]
     concurrent_first_use(rec, rng, cfg.get("concurrent", 6))
+    wide_rules(rec, rng)
     for it in range(cfg["maps"]):
         nr = rng.randint(1, 4)
         mode = rng.choice(["plain", "plain", "subdomain", "host", "submount", "subdomainfactory", "default_subdomain"])
